@@ -359,7 +359,8 @@ class Canon:
         return out
 
     def _helper_ok(self, fn) -> bool:
-        if fn.decorator_list or isinstance(fn, ast.AsyncFunctionDef):
+        static = len(fn.decorator_list) == 1 and isinstance(fn.decorator_list[0], ast.Name) and fn.decorator_list[0].id == "staticmethod"
+        if (fn.decorator_list and not static) or isinstance(fn, ast.AsyncFunctionDef):
             return False
         a = fn.args
         if a.vararg or a.kwarg or a.posonlyargs:
@@ -485,7 +486,8 @@ class Canon:
         if isinstance(f, ast.Attribute) and isinstance(f.value, ast.Name) and f.value.id in ("self", "ctx", "wtp", "cls") and f.attr in by_simple_name:
             for q, fn, cls in by_simple_name[f.attr]:
                 if cls is not None:
-                    return fn, True, f.value
+                    static = any(isinstance(d, ast.Name) and d.id == "staticmethod" for d in fn.decorator_list)
+                    return fn, not static, (None if static else f.value)
         return None
 
     def _inline_into(self, caller, caller_q, by_simple_name) -> int:
@@ -835,6 +837,32 @@ class Canon:
                 block(fn.body)
         ast.fix_missing_locations(self.tree)
 
+    def normalise_empty_arms(self):
+        """P6: `if c: pass else: B` is `if not c: B` (double negations removed) -- the shape return elimination leaves behind
+        for a guard clause `if c: return`"""
+        def neg(t):
+            if isinstance(t, ast.UnaryOp) and isinstance(t.op, ast.Not):
+                return t.operand
+            if isinstance(t, ast.Compare) and len(t.ops) == 1:
+                flip = {ast.Is: ast.IsNot, ast.IsNot: ast.Is, ast.Eq: ast.NotEq, ast.NotEq: ast.Eq, ast.In: ast.NotIn, ast.NotIn: ast.In}
+                k = type(t.ops[0])
+                if k in flip:
+                    return ast.copy_location(ast.Compare(left=t.left, ops=[flip[k]()], comparators=t.comparators), t)
+            return ast.copy_location(ast.UnaryOp(op=ast.Not(), operand=t), t)
+
+        class T(ast.NodeTransformer):
+            def visit_If(self, node):
+                self.generic_visit(node)
+                if node.orelse and all(isinstance(b, ast.Pass) for b in node.body):
+                    node.test = neg(node.test)
+                    node.body, node.orelse = node.orelse, []
+                return node
+
+        for q, fn, container, cls in self._functions():
+            if q in self.ref_funcs:
+                T().visit(fn)
+        ast.fix_missing_locations(self.tree)
+
     def fold_len(self):
         class T(ast.NodeTransformer):
             def visit_Call(self, node):
@@ -878,6 +906,7 @@ class Canon:
         self.fold_len()
         self.fold_constants()
         self.inline_helpers()
+        self.normalise_empty_arms()
         self.propagate_locals()
         self.propagate_adjacent()
         self.lower_conditional_callee()
